@@ -74,6 +74,8 @@ func c15Cases(tier string) []sigCase {
 		{"S08", []sigParam{{"a", I}, {"b", S}}, nil},         // F10: no results
 		{"S09", []sigParam{{"v0", I}, {"err", S}}, []*Ty{I}}, // names used elsewhere by the generators
 		{"S13", []sigParam{{"param_1", I}, {"_", I}, {"c", S}}, []*Ty{I}}, // a user name that looks like a renamed blank
+		{"S14", []sigParam{{"a", I}, {"_", S}}, []*Ty{I}},                  // the only blank parameter is the last one
+		{"S15", []sigParam{{"a", I}, {"b", S}, {"f", Bo}}, []*Ty{Bo}},      // the only parameter named f is the last one
 	}
 	if tier != "quick" {
 		cs = append(cs,
@@ -530,6 +532,8 @@ func c18CaseInsts(tier string) []CaseInst {
 		{"N06", []*Ty{I}, nil},
 		{"N07", []*Ty{I, S, Bo}, []*Ty{I, S, PL}},
 		{"N10", nil, nil},
+		{"N12", []*Ty{Slice(I)}, nil}, // one non-comparable parameter, no results
+		{"N13", []*Ty{Slice(I), S}, nil},
 	}
 	if tier != "quick" {
 		cases = append(cases, memCase{"N08", []*Ty{Map(S, I)}, []*Ty{I}}, memCase{"N09", []*Ty{leafTy, Named("NInt", I)}, []*Ty{Bo}})
@@ -562,7 +566,12 @@ func c18CaseInsts(tier string) []CaseInst {
 			var fps, same, recA, recR, retOld, retNew, rts []string
 			for i, p := range mc.Params {
 				fps = append(fps, fmt.Sprintf("p%d %s", i, p.Expr()))
-				same = append(same, fmt.Sprintf("%s(seen%d[k], p%d)", g.RefEq(p), i, i))
+				// classes are those of DERIVED Equal (the relation Mem itself uses); f is a function of the class
+				if p.K == "basic" {
+					same = append(same, fmt.Sprintf("(seen%d[k] == p%d)", i, i))
+				} else {
+					same = append(same, fmt.Sprintf("deriveEqualM%s_%d(seen%d[k], p%d)", id, i, i, i))
+				}
 				recA = append(recA, fmt.Sprintf("\t\tseen%d = append(seen%d, p%d)\n", i, i, i))
 			}
 			for i, r := range mc.Results {
